@@ -2,9 +2,9 @@
 import z3
 
 from ..pyvc.core import Contract, Exit, Z, Conc
-from ..pyvc.objtheory import cnt, rfind
+from ..pyvc.objtheory import cnt, rfind, strlen, lit
 
-NL = z3.StringVal("\n")
+NL = lit("\n")
 
 
 def ival(v):
@@ -16,7 +16,7 @@ def ival(v):
 def contracts():
     firstpos = Contract("pvl.exceptions.firstpos", params={"sub": "str", "pos": "int"}, exits=[
         Exit("return", res="int", post=lambda pre, post, a, r: [
-            ("start-of-lexeme", r.t == a["pos"].t - z3.Length(a["sub"].t) + 1)])], props=("C15",))
+            ("start-of-lexeme", r.t == a["pos"].t - strlen(a["sub"].t) + 1)])], props=("C15",))
     firstpos.pure = True
     linecount = Contract("pvl.exceptions.linecount", exits=[
         Exit("return", res="int", post=lambda pre, post, a, r: [
@@ -26,7 +26,7 @@ def contracts():
     linecount.pure = True
 
     def p_of(a):
-        return a["pos"].t - z3.Length(a["lexeme"].t) + 1
+        return a["pos"].t - strlen(a["lexeme"].t) + 1
 
     lexerr = Contract("pvl.exceptions.LexerError.__init__",
                       params={"msg": "opaque", "doc": "str", "pos": "int", "lexeme": "str"}, exits=[
